@@ -118,6 +118,10 @@ def threadRun (body : Nat → Int → LM Int) (its : List Nat) : LM Int :=
 def ompReduce (init : Int) (body : Nat → Int → LM Int) (sched : List (List Nat)) : LM Int :=
   sched.foldlM (fun s its => do let r ← threadRun body its; pure (s + r)) init
 
+/-- `sched` distributes the iterations `lo, …, hi` over the team: every iteration exactly once, in any order, on
+    any thread (the theorems about `s1OpenMP` / `phi0OpenMP` hold for EVERY such `sched`) -/
+def IsSchedule (lo hi : Nat) (sched : List (List Nat)) : Prop := sched.flatten.Perm (List.range' lo (hi + 1 - lo))
+
 /-- `schedule(static, 1)` with a team of `nt` threads over the iterations `lo, …, hi`: thread `i` executes
     `lo + i, lo + i + nt, …` -/
 def staticSched1 (lo hi nt : Nat) : List (List Nat) :=
